@@ -7,7 +7,7 @@ CONSTANTS
  MaxChunks = 1
  First = {}
  DevF3 = FALSE
- DevMolsPerFile = TRUE
+ DevMolsPerFile = FALSE
  DevDirKeep = FALSE
  DevElseKeep = TRUE
 CHECK_DEADLOCK FALSE
